@@ -196,7 +196,18 @@ def main(tier, seed, replay=None):
                 run.violation("problem builder disagrees with the model (code %d: %s)" % (code, CODES.get(code, "?")),
                               {"case": c, "implementation": r, "coq_term": t, "model_says": shown,
                                "meaning": "the property text decides: the model's verdict is the specified one"})
+    # the threshold is USED by its absolute value: the state a freshly built problem exposes, for large absolute thresholds that are
+    # still below every singular value of a scaled-up basis (and negative ones), against the exact least-squares specification
+    from . import num, states
+    ecases = []
+    for i in range(24 if tier == "quick" else 400):
+        c = gen_problem(rng, quant=(8 if i % 3 else None), scalar=("f32" if i % 6 == 5 else "f64"))
+        scale_up_for_eps(rng, c)
+        c["ops"] = list(states.OBS)
+        ecases.append(c)
+    _, neps, nskip_eps, ehist = states.run_states(run, "C18", binp, ecases, 3, lambda code: code in (2, 3, 4, 5), "state right after build()")
     run.coverage.update({
+        "states_after_build_with_large_thresholds": neps, "of_which_skipped_ill_conditioned": nskip_eps,
         "evaluations": len(cases), "distinct_nontrivial": len(distinct),
         "rule": "grid over model output length 0..3 x observation rows absent/0..4 x cols 0..2 x weight length "
                 "absent/0/rows-1/rows/rows+1 x epsilon absent/+/-/+0/-0 over the four constructors and f32/f64 "
